@@ -86,6 +86,25 @@ def check_find(ctx, st, pt, t_text, q_text, expected, ignore_mods, tag):
         ctx.violation('subsequence-indices-differ', {'target': t_text, 'query': q_text, 'ignore_mods': ignore_mods,
                                                      'expected': expected, 'observed': got, 'workload': tag})
         return False
+    if tag != 'exhaustive' or ctx.rng.random() < 0.05:
+        # the same search on annotation objects as other library calls hand them over: a query whose residue-modification
+        # dictionary is empty instead of None (digest/slice/pop_internal_mod), a target whose dictionary is out of
+        # positional order (reverse/shift/add_internal_mod)
+        try:
+            with ctx.eng.suspend():
+                q_obj = rp.hollowed(pt, q_text)
+                t_obj = rp.scrambled(pt, t_text, ctx.rng) if ctx.rng.random() < 0.5 else rp.hollowed(pt, t_text)
+        except Exception:
+            q_obj = t_obj = None
+        if q_obj is not None:
+            got = observe(st, pt, 'find_subsequence_indices', t_obj, q_obj, ignore_mods)
+            ctx.decided()
+            if not got or got[0] != 'ok' or list(got[1]) != expected:
+                ctx.violation('subsequence-indices-differ', {'target': t_text, 'query': q_text, 'ignore_mods': ignore_mods,
+                                                             'expected': expected, 'observed': got,
+                                                             'workload': tag + ' (annotation objects: hollowed query, '
+                                                                               'scrambled/hollowed target)'})
+                return False
     got = observe(st, pt, 'is_subsequence', q_text, t_text, True)
     ctx.decided()
     if not ignore_mods and (not got or got[0] != 'ok' or bool(got[1]) != bool(expected)):
